@@ -313,7 +313,13 @@ def run_kani(prop, tier, workdir):
     hs = [h for h in CONF.get("kani", []) if prop in h["props"] and (tier == "thorough" or h.get("tier", "quick") == "quick")]
     if not hs: return [], []
     import kani_runner
-    return kani_runner.run(hs, REPO, workdir, VERIF)
+    try:
+        res, viol = kani_runner.run(hs, REPO, workdir, VERIF)
+    except RuntimeError as e:
+        raise Undecided("kani: %s" % e)
+    for r in res:
+        log("kani %-28s %s: %d checks, %d failed, %.1fs%s" % (r["name"], r["status"], r["checks"], r["failed"], r["seconds"], "" if r["complete"] else "  [BOUNDED: %s]" % r["bound"]))
+    return res, viol
 
 # ------------------------------------------------------------------ property
 
